@@ -1,4 +1,5 @@
 import SaVerif.Model.Bind
+import SaVerif.Lemmas.Bind
 import SaVerif.Drv.Parse
 namespace SaVerif.Drv.Bind
 open SaVerif.Drv SaVerif.Bind
@@ -96,7 +97,25 @@ def insertSorted (x : String × String) : List (String × String) → List (Stri
   | [] => [x]
   | y :: r => if x.1 < y.1 then x :: y :: r else y :: insertSorted x r
 
+/-- regroup a token list into segments (literal runs become text) -/
+def segsOfToks (m : Mode) : List Tok → Str → List Seg → List Seg
+  | [], acc, out => (if acc.isEmpty then out else Seg.text acc.reverse :: out).reverse
+  | .lit c :: r, acc, out => segsOfToks m r (c :: acc) out
+  | .hit h :: r, acc, out =>
+    let out := if acc.isEmpty then out else Seg.text acc.reverse :: out
+    let sg := match h with
+      | .a n => Seg.bind n
+      | .b n g => Seg.pc n g
+    segsOfToks m r [] (sg :: out)
+
 def handle : List String → String
+  | ["safe", m, s] =>
+    -- does the NoPattern guard of the alignment theorems hold for this real string?
+    match parseMode? m, str? s with
+    | some m, some s =>
+      let segs := segsOfToks m (tokens m s) [] []
+      if renderSegs segs == s && decide (SafeSegs m segs) then "safe" else "unsafe"
+    | _, _ => "bad-op"
   | ["scan", m, s] =>
     match parseMode? m, str? s with
     | some m, some s => showToks (tokens m s)
